@@ -208,6 +208,13 @@ class Extractor {
         }
         return s;
     }
+    // full name of a class including template arguments (canonical type spelling)
+    std::string recFull(const CXXRecordDecl* R)
+    {
+        if (!R) return "";
+        if (R->isDependentContext() || R->isLambda()) return qname(R);
+        return ty(Ctx.getRecordType(R));
+    }
     static const FunctionDecl* patternOf(const FunctionDecl* FD)
     {
         if (auto* P = FD->getTemplateInstantiationPattern()) return P;
@@ -237,7 +244,7 @@ class Extractor {
         (void)hasBody;
         if (auto* MD = dyn_cast<CXXMethodDecl>(FD)) {
             o["rec"] = recTemplateName(MD->getParent());
-            o["recq"] = qname(MD->getParent());
+            o["recq"] = recFull(MD->getParent());
             o["recid"] = idOf(MD->getParent()->getCanonicalDecl());
             o["static"] = MD->isStatic();
             o["virtual"] = MD->isVirtual();
@@ -297,7 +304,7 @@ class Extractor {
         if (!doneRecs.insert(R).second) return;
         json::Object o;
         o["id"] = idOf(R->getCanonicalDecl());
-        o["qname"] = qname(R);
+        o["qname"] = recFull(R);
         o["tmpl"] = recTemplateName(R);
         o["name"] = R->getNameAsString();
         o["dependent"] = R->isDependentContext();
@@ -538,7 +545,7 @@ class Extractor {
             if (auto* FD = dyn_cast<FieldDecl>(MD)) {
                 auto* P = dyn_cast<CXXRecordDecl>(FD->getParent());
                 m["rec"] = recTemplateName(P);
-                m["recq"] = P ? qname(P) : "";
+                m["recq"] = P ? recFull(P) : "";
                 m["mutable"] = FD->isMutable();
                 m["ftype"] = ty(FD->getType());
             } else if (auto* MM = dyn_cast<CXXMethodDecl>(MD)) {
